@@ -115,6 +115,10 @@ HookWhyDyn(h, log) ==
     ELSE LET at == IF h.at <= Len(log) THEN h.at ELSE Len(log)
              i == LastCallOf(log, h.fid, at)
          IN IF i = 0 THEN "no call event for the function handed to the hook " \o h.name
+            \* under re-entry the most recent call of the function belongs to an inner activation (whose hook
+            \* has already fired): the hook's own call is an earlier one
+            ELSE IF \E j \in 1..at : log[j].e = "call" /\ log[j].x = h.fid /\ log[j].v = h.args[3]
+                                     /\ log[j].a = SubSeq(h.args, 4, Len(h.args)) THEN ""
             ELSE IF log[i].v # h.args[3] THEN "receiver handed to the hook differs from the receiver of the call"
             ELSE IF log[i].a # SubSeq(h.args, 4, Len(h.args)) THEN "arguments handed to the hook differ from the arguments of the call"
             ELSE ""
